@@ -547,6 +547,25 @@ type FuncContract struct {
 	Used     bool
 	File     string
 	Line     int
+	GVars    []GVarDecl
+	GResults []GVarDecl
+	Updates  []*UpdateClause
+}
+
+type GVarDecl struct {
+	Name, Type, Init string
+}
+
+type Assign struct {
+	LHS    Expr
+	RHS    Expr
+	Lambda string // bound variable of a bulk update "x := lambda j :: e"
+}
+
+type UpdateClause struct {
+	Site    string
+	Assigns []Assign
+	Text    string
 }
 
 type SpecFunc struct {
@@ -586,7 +605,7 @@ type Contracts struct {
 	Axioms []*Clause
 }
 
-var kwRe = regexp.MustCompile(`^(func|extern|requires|ensures|modifies|loop|spec|pred|lemma|ghost|at-return|option|axiom|pure|induction|uses)\b`)
+var kwRe = regexp.MustCompile(`^(func|extern|requires|ensures|modifies|loop|spec|pred|lemma|ghost|at-return|option|axiom|pure|induction|uses|gvar|update|ghostresult)\b`)
 var tagRe = regexp.MustCompile(`^\[([^\]]*)\]\s*`)
 
 func newContracts() *Contracts {
@@ -694,6 +713,73 @@ func (cs *Contracts) parseFile(path, pkg string) error {
 			} else {
 				cur.Ensures = append(cur.Ensures, c)
 			}
+		case "gvar", "ghostresult":
+			if cur == nil {
+				return fail(fmt.Errorf("%s outside func", kw))
+			}
+			d := GVarDecl{}
+			if i := strings.Index(rest, "="); i >= 0 {
+				d.Init = strings.TrimSpace(rest[i+1:])
+				rest = strings.TrimSpace(rest[:i])
+			}
+			f := strings.SplitN(rest, " ", 2)
+			if len(f) != 2 {
+				return fail(fmt.Errorf("bad %s declaration %q", kw, rest))
+			}
+			d.Name, d.Type = f[0], strings.ReplaceAll(f[1], " ", "")
+			if kw == "gvar" {
+				cur.GVars = append(cur.GVars, d)
+			} else {
+				cur.GResults = append(cur.GResults, d)
+			}
+		case "update":
+			if cur == nil {
+				return fail(fmt.Errorf("update outside func"))
+			}
+			i := strings.Index(rest, ":")
+			for i >= 0 && i+1 < len(rest) && rest[i+1] == '=' {
+				j := strings.Index(rest[i+2:], ":")
+				if j < 0 {
+					i = -1
+				} else {
+					i = i + 2 + j
+				}
+			}
+			if i < 0 {
+				return fail(fmt.Errorf("bad update clause %q", rest))
+			}
+			uc := &UpdateClause{Site: strings.TrimSpace(rest[:i]), Text: rest}
+			for _, as := range splitTop(rest[i+1:], ';') {
+				as = strings.TrimSpace(as)
+				if as == "" {
+					continue
+				}
+				k := strings.Index(as, ":=")
+				if k < 0 {
+					return fail(fmt.Errorf("bad assignment %q", as))
+				}
+				lhs, err := parseExpr(strings.TrimSpace(as[:k]))
+				if err != nil {
+					return fail(err)
+				}
+				rhsText := strings.TrimSpace(as[k+2:])
+				a := Assign{LHS: lhs}
+				if strings.HasPrefix(rhsText, "lambda ") {
+					q := strings.Index(rhsText, "::")
+					if q < 0 {
+						return fail(fmt.Errorf("bad lambda %q", rhsText))
+					}
+					a.Lambda = strings.TrimSpace(rhsText[7:q])
+					rhsText = strings.TrimSpace(rhsText[q+2:])
+				}
+				rhs, err := parseExpr(rhsText)
+				if err != nil {
+					return fail(err)
+				}
+				a.RHS = rhs
+				uc.Assigns = append(uc.Assigns, a)
+			}
+			cur.Updates = append(cur.Updates, uc)
 		case "uses":
 			if curLemma == nil {
 				return fail(fmt.Errorf("uses outside lemma"))
